@@ -63,6 +63,9 @@ pub ghost struct BW {
     // make_pipe(), and every end moved into a Communicator.  A child may be blocked on any of them (waiting for end-of-file on its
     // stdin, or writing into a pipe nobody reads), so nothing may be waited for while this set is non-empty (C12, C14).
     pub parked: Set<int>,
+    // exchanges that ran to completion: unlimited Communicator::read calls that returned Ok (all input delivered, every captured
+    // stream read to end-of-file: unit comm)
+    pub full_reads: nat,
 }
 pub open spec fn no_parked(s: BW) -> bool { forall|o: int| !s.parked.contains(o) }
 // every parked end is the one held in `f`
